@@ -230,6 +230,10 @@ def _child(store, spec, model, steps, out_fd):
         data = data[n:]
 
 
+class NativeCrash(Exception):
+    """The child was killed by a native crash (observed: segfaults inside the DuckDB extension under load)."""
+
+
 def run_segment(store, spec, model, steps, timeout=120.0):
     """Fork a child of the (pristine) current process, run the steps there, return the observations."""
     rfd, wfd = os.pipe()
@@ -259,8 +263,10 @@ def run_segment(store, spec, model, steps, timeout=120.0):
             chunks.append(chunk)
     finally:
         os.close(rfd)
-    os.waitpid(pid, 0)
+    _, status = os.waitpid(pid, 0)
     raw = b''.join(chunks)
+    if os.WIFSIGNALED(status) and os.WTERMSIG(status) in (signal.SIGSEGV, signal.SIGABRT, signal.SIGBUS):
+        raise NativeCrash(f'reader-level child killed by signal {os.WTERMSIG(status)}')
     if not raw:
         raise RuntimeError('reader-level child died without an answer')
     return json.loads(raw)
@@ -288,8 +294,25 @@ def _warm_up() -> None:
     _WARM.append(True)
 
 
+_HOME = {}
+
+
 def cache_dir() -> str:
-    return os.path.join(os.environ['FORML_HOME'], '.cache', 'alchemy')
+    """The result cache directory of this process' ForML home.
+
+    Sharded runs fork their workers from one parent, so all of them would share ``$FORML_HOME/.cache/alchemy`` (fixed when
+    ``forml.provider.feed.alchemy`` is imported) and purge each other's files: every process that runs histories gets its
+    own directory - the equivalent of running each shard with its own FORML_HOME. Its children (the restarts) inherit it."""
+    from forml.provider.feed import alchemy as falc
+
+    pid = os.getpid()
+    if _HOME.get('pid') != pid:
+        path = os.path.join(os.environ.get('VERIF_SCRATCH') or tempfile.gettempdir(), f'forml-home-{pid}', '.cache', 'alchemy')
+        import pathlib
+
+        falc.Feed.Reader.RESULTS = falc.Results(pathlib.Path(path))
+        _HOME.update(pid=pid, path=path)
+    return _HOME['path']
 
 
 def purge_cache() -> None:
@@ -303,6 +326,14 @@ def purge_cache() -> None:
 
 
 def execute(spec) -> list:
+    """``execute_once`` with one retry of the whole history after a native crash of a child (not a verdict about forml)."""
+    try:
+        return execute_once(spec)
+    except NativeCrash:
+        return execute_once(spec)
+
+
+def execute_once(spec) -> list:
     """Run a history; returns one record per read step:
     ``{'step', 'feed', 'stmt', 'obs': {...}, 'expected': refeval.Result | None, 'undefined': str | None}``."""
     import copy
